@@ -499,19 +499,19 @@ int main(int argc, char **argv) {
   }
   C.sample("exhaustive over the fill level 0..223: addais/addvar/addstr(+rtvar) with one string of each of 6 kinds");
   // 3. maxima x destination sizes, round trips of well-formed text
-  for (int i = 0, nI = C.thorough ? 30000 : 2500; i < nI; i++) {
+  for (int i = 0, nI = C.thorough ? 100000 : 2500; i < nI; i++) {
     int kind = R.chance(2, 3) ? (int)R.pick(std::vector<int>{0, 1, 1, 5}) : pickKind(R);
     Bytes s = genStr(R, kind, R.chance(1, 2) ? (int)R.range(0, 40) : pickLen(R));
     genAdd(R, pickFill(R), s);
   }
   // 4. malformed stream
-  for (int i = 0, nI = C.thorough ? 30000 : 2500; i < nI; i++) {
+  for (int i = 0, nI = C.thorough ? 100000 : 2500; i < nI; i++) {
     Bytes s = genStr(R, (int)R.range(2, 4), R.chance(1, 2) ? (int)R.range(0, 12) : pickLen(R));
     genAdd(R, pickFill(R), s);
   }
   C.sample("random: strings 0..300 (ASCII / valid UTF-8 / invalid bytes / cut sequences / random bytes / AIS text) x fill 0..223 x maxima 0..255 x destination 0..80");
   // 5. read side: arbitrary payloads
-  for (int i = 0, nI = C.thorough ? 60000 : 6000; i < nI; i++) genGet(R);
+  for (int i = 0, nI = C.thorough ? 200000 : 6000; i < nI; i++) genGet(R);
   // every (length byte, type) pair at a tight payload end, destination sizes 0..3
   for (int lb = 0; lb < 256; lb++)
     for (int ty : {0, 1, 2, 255})
